@@ -33,9 +33,12 @@ func runRangeCase(c *rangeCase) (kind, detail string, ok bool) {
 	from, to := c.From, c.To
 	lo, hi := 0, len(data)
 	if from > 0 {
-		lo = min((from-1)*B, len(data))
+		lo = len(data)
+		if from-1 <= len(data)/B+1 {
+			lo = min((from-1)*B, len(data))
+		}
 	}
-	if to > 0 {
+	if to > 0 && to-1 <= len(data)/B+1 { // beyond that the range is open-ended ((to-1)*B would overflow for huge values)
 		hi = min((to-1)*B, len(data))
 	}
 	if hi < lo {
@@ -180,6 +183,19 @@ func c11(run *core.Run, replay string) {
 					}
 				}
 				cases = append(cases, &rangeCase{rc, from, 0, uint(1 + from%4), false, 0}, &rangeCase{rc, 0, from, uint(1 + from%3), false, 0})
+			}
+		}
+	}
+	// open-ended ranges written as a huge "to" (the command line accepts any int): values at and beyond the 32-bit limits
+	for ri := range recs {
+		B := int(recs[ri].Cfg.BlockSize)
+		nb := (recs[ri].Size + B - 1) / B
+		for ti, to := range []int{1<<31 - 1, 1 << 31, 1<<32 - 1, 1 << 32, 1<<32 + 1, 1<<40 + 5, int(^uint(0) >> 1), 1<<31 + 2, 65536, 1 << 16 << 16 >> 1} {
+			for from := 1; from <= nb+1; from++ {
+				if !run.Thorough() && (ri+ti+from)%2 == 1 {
+					continue
+				}
+				cases = append(cases, &rangeCase{recs[ri], from, to, jobsL[(from+ti)%6], false, []int{0, 1021}[(from+ti)%2]})
 			}
 		}
 	}
